@@ -40,8 +40,12 @@ def sweep_project():
         fr.append(["m%d" % i, {"k": "lit", "ty": "str", "v": "a" + ch + "b" + ("" if i % 3 else "!")}])
     en.append(["all", {"k": "lit", "ty": "str", "v": "".join(EVERY_SPECIAL)}])
     fr.append(["all", {"k": "lit", "ty": "str", "v": "".join(reversed(EVERY_SPECIAL))}])
-    return {"cfg": {"default": "en", "locales": ["en", "fr"], "namespaces": None, "inherits": {}, "locales_dir": None},
-            "data": {(None, "en"): en, (None, "fr"): fr}}
+    # a locale that leaves every key to the default (its own table is empty: the exported file must be `[]`), and one holding
+    # only a number and a bare variable besides nulls
+    de = [[k, {"k": "null"}] for k, _ in en]
+    it = [[k, {"k": "null"}] for k, _ in en[2:]] + [[en[0][0], {"k": "lit", "ty": "int", "v": 5}], [en[1][0], {"k": "tmpl", "segs": [{"s": "var", "name": "v", "fmt": None}]}]]
+    return {"cfg": {"default": "en", "locales": ["en", "fr", "de", "it"], "namespaces": None, "inherits": {}, "locales_dir": None},
+            "data": {(None, "en"): en, (None, "fr"): fr, (None, "de"): de, (None, "it"): it}}
 
 
 IDX_RE = re.compile(r"index_translations\s*::\s*<\s*(\d+)(?:usize)?\s*,\s*(\d+)(?:usize)?\s*>")
